@@ -28,7 +28,8 @@ COVER_PKGS = [
     "github.com/buildbarn/bb-remote-execution/pkg/sync",
 ]
 COVER_FILES = ("in_memory_prepopulated_directory.go", "lock_pile.go",
-               "pool_backed_file_allocator.go")
+               "pool_backed_file_allocator.go", "nfs_handle_allocator.go",
+               "fuse_handle_allocator.go", "user_settable_symlink.go")
 
 
 def drive(ctx, binary, test, label, env, timeout=1800):
@@ -136,9 +137,18 @@ def drivers_and_validation(ctx, binary, quick, classify, res):
     ctx.cov["samples"] += vlib.sample_lines(p, 4)
     n = 30 if quick else 200
     for test, label in (("TestFileRandom", "file"), ("TestOpenedFilesPoolRandom", "ofp"),
-                        ("TestIdleInvokerRandom", "idle"), ("TestSectorAllocatorRandom", "sector")):
-        p, _ = drive(ctx, binary, test, label, {"VERIF_N": n})
+                        ("TestIdleInvokerRandom", "idle"), ("TestSectorAllocatorRandom", "sector"),
+                        ("TestUserSettableSymlinkRandom", "usymlink"), ("TestHandleAllocatorRandom", "handle")):
+        p, _ = drive(ctx, binary, test, label, {"VERIF_N": 2 * n if label == "file" else n})
         paths.append(p)
+        if label == "file":
+            res["parked"] = sum(1 for ln in open(p) if '"ev":"park"' in ln.replace(" ", ""))
+            vlib.log("  calls observed waiting by design and woken by other calls: %d" % res["parked"])
+
+    # 3b. (c) gated lock-order scenarios: two directories held through the
+    #     normalizer gate, two multi-lock calls, staged releases.
+    p, res["gated"] = drive(ctx, binary, "TestDirGated", "gated", {"VERIF_N": 250 if quick else 3000}, timeout=3000)
+    paths.append(p)
 
     # 4. (c) concurrent calls with the deadlock watchdog.
     conc_env = {"VERIF_ROUNDS": 30 if quick else 300, "VERIF_WORKERS": 6, "VERIF_OPS": 400}
@@ -154,6 +164,9 @@ def drivers_and_validation(ctx, binary, quick, classify, res):
         res["cover"] = coverage_report(ctx, [("TestDirSweep", {}),
                                       ("TestDirRandom", {"VERIF_N": 60}),
                                       ("TestFileRandom", {"VERIF_N": 100}),
+                                      ("TestDirGated", {"VERIF_N": 300}),
+                                      ("TestHandleAllocatorRandom", {"VERIF_N": 60}),
+                                      ("TestUserSettableSymlinkRandom", {"VERIF_N": 30}),
                                       ("TestDirConcurrent", {"VERIF_ROUNDS": 20}),
                                       ("TestLockPileRandom", {"VERIF_N": 100})])
 
@@ -178,7 +191,7 @@ def run(ctx):
     vlib.design_check(ctx, "LockBalance.tla", "MC_LockBalance.cfg", [], timeout=600, workers=1, heap="1g", label="LockBalance")
 
     binary = vlib.go_build_test(ctx, "locks")
-    res = {"sched": {}, "sweep": {}, "conc": {}, "exercised": {}, "cover": None}
+    res = {"sched": {}, "sweep": {}, "conc": {}, "exercised": {}, "cover": None, "gated": {}, "parked": 0}
     try:
         drivers_and_validation(ctx, binary, quick, classify, res)
     except vlib.Infra as e:
@@ -194,8 +207,11 @@ def run(ctx):
     # The scheduler's lock is probed at the end of every scheduler trace
     # (verdict C14:scheduler-lock-left-behind of SchedTrace.tla); that family
     # is validated once per binary/specs/seed/tier and shared with C01-C07.
-    from checks import sched
-    sched.run_parts(ctx)
+    # (VERIF_C14_SKIP_SCHED=1 skips the scheduler family; only for the
+    # builder's mutation runs of the virtual file system packages.)
+    if os.environ.get("VERIF_C14_SKIP_SCHED") != "1":
+        from checks import sched
+        sched.run_parts(ctx)
 
     return vlib.finish(
         ctx,
@@ -206,15 +222,21 @@ def run(ctx):
               "(context-bounded enumeration of the schedules of small scenarios + seeded random schedules); TLC replays "
               "every event against the algorithm and judges the observed lock ownership. Lock balance: every public "
               "method of the real in-memory directory x receiver state x name class (fresh file system each), seeded "
-              "random sequences incl. removed and lazily initialised directories, pool-backed files, OpenedFilesPool, "
-              "IdleInvoker, sector allocator; after every call all known locks are probed with TryLock hooks. "
-              "Concurrent workers on one tree with a watchdog for 'all workers parked in a mutex'."),
+              "random sequences incl. removed and lazily initialised directories, pool-backed files (incl. calls that wait "
+              "by design for frozen readers / writers and the calls that wake them), NFS handle resolution, "
+              "OpenedFilesPool, IdleInvoker, sector allocator, UserSettableSymlink; NFS and FUSE handle allocators; "
+              "after every call all known locks are probed with TryLock hooks (locks without a hook: by the next call "
+              "that needs them, under the watchdog). Gated lock-order scenarios: two directory locks held through the "
+              "normalizer, two multi-lock calls, staged releases. "
+              "Concurrent workers on one tree (leaves also renamed between parent, child and sibling directories) "
+              "with a watchdog for 'all workers parked in a mutex'."),
         explanation="model checking of lock_pile.go + conformance/lock probing of the real code",
         exhaustive=False,
         extra={"exhaustive_part": "LockPile.tla model checking of the bounded configurations",
                "lockpile_schedules": meta_sched, "dir_sweep": meta_sweep,
                "concurrent": {k: meta_conc.get(k) for k in ("rounds", "workers", "calls")},
                "concurrent_outcomes": meta_conc.get("pairs", {}),
+               "gated_scenarios": res["gated"], "parked_calls": res["parked"],
                "outcome_classes": exercised, "statement_coverage": cover},
     )
 
